@@ -544,21 +544,26 @@ class EvalFunc:
 
                     return pyscript_service_handler
 
-                for srv_name in dec_args if dec_args else [f"{DOMAIN}.{func_name}"]:
-                    if type(srv_name) is not str or srv_name.count(".") != 1:
-                        raise ValueError(f"{exc_mesg}: @service argument must be a string with one period")
-                    domain, name = srv_name.split(".", 1)
-                    if name in (SERVICE_RELOAD, SERVICE_JUPYTER_KERNEL_START):
-                        raise SyntaxError(f"{exc_mesg}: @service conflicts with builtin service")
-                    Function.service_register(
-                        trig_ctx_name,
-                        domain,
-                        name,
-                        pyscript_service_factory(func_name, self),
-                        dec_kwargs.get("supports_response", SupportsResponse.NONE),
-                    )
-                    async_set_service_schema(Function.hass, domain, name, service_desc)
-                    self.trigger_service.add(srv_name)
+                try:
+                    for srv_name in dec_args if dec_args else [f"{DOMAIN}.{func_name}"]:
+                        if type(srv_name) is not str or srv_name.count(".") != 1:
+                            raise ValueError(f"{exc_mesg}: @service argument must be a string with one period")
+                        domain, name = srv_name.split(".", 1)
+                        if name in (SERVICE_RELOAD, SERVICE_JUPYTER_KERNEL_START):
+                            raise SyntaxError(f"{exc_mesg}: @service conflicts with builtin service")
+                        Function.service_register(
+                            trig_ctx_name,
+                            domain,
+                            name,
+                            pyscript_service_factory(func_name, self),
+                            dec_kwargs.get("supports_response", SupportsResponse.NONE),
+                        )
+                        async_set_service_schema(Function.hass, domain, name, service_desc)
+                        self.trigger_service.add(srv_name)
+                except Exception:
+                    # the definition fails: don't leave the names registered so far behind
+                    self.trigger_stop()
+                    raise
                 continue
 
             if dec_name == "webhook_trigger" and "methods" in dec_kwargs:
